@@ -42,7 +42,7 @@ def generate(seed, prop):
     w = {"trim": 3.0, "filter": 1.5, "detrend": 1.5, "window": 1.5, "orient": 1.5, "split": 1.5,
          "copy": 2.0, "ts_copy": 1.0, "construct": 1.0, "ts_split": 1.2, "ts_from_array": 1.0, "edit_caller_array": 1.0,
          "ts_method": 1.0, "edit_samples": 2.5, "edit_meta": 1.0,
-         "assign_samples": 0.7, "save": 3.0, "load": 3.0}
+         "assign_samples": 0.7, "save": 3.0, "load": 3.0, "use": 0.8}
     for k in list(w):
         if rng.random() < 0.12 and k not in ("save", "load"):
             w[k] = 0.0
@@ -96,6 +96,11 @@ def draw_op(rng, name, fault_rate):
     if name in ("edit_samples", "assign_samples"):
         return {"op": name, "i": i, "comp": rng.choice(["ns", "ew", "vt"]), "k": rng.randrange(1000),
                 "delta": rng.choice([1.0, -2.5, 1e6])}
+    if name == "use":
+        # read-only uses of the live recordings between the operations (none of them may change anything, and what
+        # they leave behind inside the objects - memoised vectors, say - must not influence later operations)
+        return {"op": name, "i": i, "how": rng.choice(["time", "time", "str", "compare", "plot_records", "plot_records",
+                                                      "sta_lta"])}
     if name == "edit_meta":
         return {"op": name, "i": i, "key": rng.choice(["site", "note", "edited"]), "value": rng.choice(["x", 7, [1, 2]])}
     if name == "save":
@@ -392,6 +397,39 @@ def step(ctx, st, op, H):
                 ts.amplitude = np.array(ts.amplitude) * 0.5
             ctx.probe("edited_samples")
             ctx.state_changes += 1
+    elif name == "use":
+        recs_ = [o for o in st.pool if isinstance(o, H.SeismicRecording3C)]
+        how = op["how"]
+        try:
+            if how == "time":
+                for o in st.pool:
+                    for t in ([o] if isinstance(o, H.TimeSeries) else [o.ns, o.ew, o.vt]):
+                        tv = t.time()
+                        ctx.check(len(tv) == t.n_samples and tv[0] == 0.0, "time_vector", "time() is not the record's time axis")
+            elif how == "str":
+                for o in st.pool:
+                    str(o), repr(o)
+            elif how == "compare" and len(recs_) >= 2:
+                a_, b_ = recs_[op["i"] % len(recs_)], recs_[(op["i"] + 1) % len(recs_)]
+                a_.is_similar(b_), a_ == b_, a_ != b_
+            elif how == "plot_records" and recs_:
+                import matplotlib.pyplot as plt
+                try:
+                    H.plot_seismic_recordings_3c(recs_ if len(recs_) > 1 or op["i"] % 2 else recs_[0])
+                finally:
+                    plt.close("all")
+                ctx.probe("records_plotted")
+            elif how == "sta_lta" and recs_:
+                dt_ = recs_[0].vt.dt_in_seconds
+                same = [r for r in recs_ if r.vt.dt_in_seconds == dt_ and r.vt.n_samples >= 20]
+                if same:
+                    H.sta_lta_window_rejection(same, sta_seconds=4 * dt_, lta_seconds=16 * dt_, min_sta_lta_ratio=0.1,
+                                               max_sta_lta_ratio=5.0)
+        except Violation:
+            raise
+        except Exception as ex:                              # noqa  (a use that fails is of no interest here)
+            info = type(ex).__name__
+        ctx.probe("read_only_use")
     elif name == "edit_meta" and rec is not None:
         targets = [rec]
         rec.meta[op["key"]] = copy.deepcopy(op["value"])
